@@ -216,8 +216,15 @@ SendSound(k, t) == /\ (k \in GivesMut => TSend(t))
                    /\ (k \in SharesWithSender => TSync(t))
 \* sharing &K between threads is sound iff every thread may read the values concurrently
 SyncSound(k, t) == TSync(t)
+\* kinds that BORROW exclusive access (the owner kinds PrefixMap / IntoIter copy their entries when duplicated):
+\* a duplicate of such a handle is a second live handle with exclusive access to the same entries, i.e. exactly
+\* the Hazard of the program part above, reachable in one statement (`h.clone()`) - so the kind must not be
+\* Clone (nor Copy, which implies Clone).
+Exclusive == GivesMut \ {"PrefixMap", "IntoIter"}
+DupSound(k) == k \notin Exclusive
 ThreadRows == {[kind |-> k, t |-> t, check |-> c, sound |-> IF c = "Send" THEN SendSound(k, t) ELSE SyncSound(k, t)] :
                  k \in Kinds \ {"PrefixSetLike"}, t \in ValueTypes, c \in {"Send", "Sync"}}
+              \cup {[kind |-> k, t |-> "SendSync", check |-> "Clone", sound |-> DupSound(k)] : k \in Kinds \ {"PrefixSetLike"}}
 EmitThreads == Len(prog) = 0 /\ EmitProgs => PrintT(ToJson([threads |-> ThreadRows]))
 
 ProgRow == [prog |-> prog, aliasfree |-> AliasFree, typed |-> Typed,
